@@ -1297,6 +1297,33 @@ def _assign_pairs(fn):
             p, i = expr_str(strip_casts(c['args'][0])), expr_str(strip_casts(c['args'][1]))
             out.append(('%s->next' % _par(p), i, c))
             out.append(('%s->prev' % _par(i), p, c))
+    # a local that holds the first child for the whole function (cJSON *child = array->child;) is written as what it holds
+    defs = {}
+    for d_ in fn.locals():
+        if 'init' in d_:
+            defs.setdefault(d_['n'], []).append(d_['init'])
+    stepped = set()
+    for a in assignments(fn):
+        l_ = strip_casts(a['l'])
+        if l_.get('k') == 'ref':
+            defs.setdefault(l_['n'], []).append(a['r'] if a['op'] == '=' else None)
+    for x in fn.nodes():
+        if x.get('k') == 'un' and x.get('op') in ('pre++', 'pre--', 'post++', 'post--', '&') and strip_casts(x['e']).get('k') == 'ref':
+            stepped.add(strip_casts(x['e'])['n'])
+    alias = {}
+    for name, rs in defs.items():
+        real = [r_ for r_ in rs if r_ is None or not (is_null_const(r_) or strip_casts(r_).get('null'))]
+        if name in stepped or len(real) != 1 or real[0] is None:
+            continue
+        r0 = strip_casts(real[0])
+        if r0.get('k') == 'mem' and r0['f'] == 'child' and strip_casts(r0['b']).get('k') == 'ref' and strip_casts(r0['b']).get('dk') == 'param':
+            alias[name] = expr_str(r0)
+    if alias:
+        def sub(t):
+            for name, full in alias.items():
+                t = re.sub(r'(?<![\w>.])%s(?![\w])' % re.escape(name), full, t)
+            return t
+        out = [(sub(l), sub(r), a) for (l, r, a) in out if not (l in alias)]
     return out
 
 
